@@ -160,7 +160,7 @@ pub fn check_history(h: &History, info: &mut CaseInfo) -> Result<(), String> {
 }
 
 fn small_ops() -> Vec<DnOp> {
-	let vals = [DnValueSpec { kind: StrKind::Utf8, text: "a".into() }, DnValueSpec { kind: StrKind::Printable, text: "b".into() }];
+	let vals = [DnValueSpec::new(StrKind::Utf8, "a"), DnValueSpec::new(StrKind::Printable, "b")];
 	let mut ops = Vec::new();
 	for t in 0..3u8 {
 		for v in &vals {
